@@ -281,7 +281,7 @@ fn set_single(g: &mut Gen, r: &dyn Runner) -> String {
     } else if x < 440 {
         format!("{} get_or_insert {} {}", tgt, k, g.id())
     } else if x < 480 {
-        format!("{} get_or_insert_with {} {}", tgt, k, g.id())
+        if g.rng.chance(1, 4) { format!("{} get_or_insert_with_panic {}", tgt, k) } else { format!("{} get_or_insert_with {} {}", tgt, k, g.id()) }
     } else if x < 500 {
         let k2 = set_other_key(g, k);
         format!("{} get_or_insert_with_bad {} {} {}", tgt, k, k2, g.id())
